@@ -345,6 +345,43 @@ func main() {
 		}
 		recB(nil)
 	}
+	// A2c: everything that can stand inside a string literal, in every place a string literal is interpreted
+	// (opcode, deprecation message, const string / guid, import path): all contents up to maxStr characters
+	{
+		strAlphabet := []string{"a", "Z", "0", "\\", "\"", "n", "x", " ", "\x80", "\n", "%"}
+		maxStr := 4
+		if run.Thorough() {
+			maxStr = 5
+		}
+		frames := []struct{ name, pre, post string }{
+			{"opcode-string", "[opcode(\"", "\")]\nstruct A {\n}\n"},
+			{"deprecated-message", "message M {\n[deprecated(\"", "\")]\n1 -> int32 x;\n}\n"},
+			{"const-string", "const string s = \"", "\";\n"},
+			{"const-guid", "const guid g = \"", "\";\n"},
+			{"import-path", "import \"", "\"\nstruct A {\n}\n"},
+			{"enum-member-deprecation", "enum E {\n[deprecated(\"", "\")]\nA = 1;\n}\n"},
+		}
+		var recS func(cur string, n int)
+		var contents []string
+		recS = func(cur string, n int) {
+			contents = append(contents, cur)
+			if n == maxStr {
+				return
+			}
+			for _, c := range strAlphabet {
+				recS(cur+c, n+1)
+			}
+		}
+		recS("", 0)
+		for _, fr := range frames {
+			for _, c := range contents {
+				if fr.name != "opcode-string" && len(c) > 3 && !run.Thorough() {
+					continue // the four-byte rule makes length 4 special for opcodes only
+				}
+				jobs = append(jobs, job{fr.pre + c + fr.post, "string-content", fr.name, byteClass(append([]byte(c), ' ')[0])})
+			}
+		}
+	}
 	// A2b: well-formed texts of the C11 alphabet followed by every "tail" that leaves the tokenizer in a bad state
 	tails := []string{"/* unterminated", "\"unterminated", "-", "1.", "0x", "1e", "/", "<", ">", "\x80", "@", "-i", "-in", "/* c */", "// c", "/* c */ ", "\t", " ", "\r", "\r\n", ";", "}", "]", ")", "1", "a", "\"s\"", "->"}
 	for _, d := range textgen.Alphabet(0) {
